@@ -11,6 +11,7 @@ verus! {
 //@include common/pbf_blob.vrs
 //@include common/compression.vrs
 //@include common/pyramid_abs.vrs
+//@include common/source_abs.vrs
 
 #[derive(Clone, Copy, PartialEq, Eq, Debug, Structural)]
 //@extract struct file="versatiles_core/src/types/byte_range.rs" name="ByteRange"
@@ -28,9 +29,14 @@ pub uninterp spec fn id_coord(id: u64) -> TileCoord3;
 pub fn tile_id_to_coord(tileid: u64) -> (r: Result<TileCoord3, VErr>)
 	ensures r is Ok ==> r.unwrap() == id_coord(tileid) && r.unwrap().valid()
 { unimplemented!() }
+// `dir_dec(d)`: the entries EntriesV3::from_blob decodes from d (None: rejected). from_blob is a function of the bytes; WHAT it
+// decodes is proved in unit pmtiles_dir_dec (column rules of the specification, every valid directory accepted).
+pub uninterp spec fn dir_dec(d: Seq<u8>) -> Option<Seq<EntryV3>>;
 impl EntriesV3 {
 	#[verifier::external_body]
-	pub fn from_blob(data: &Blob) -> (r: Result<EntriesV3, VErr>) { unimplemented!() }
+	pub fn from_blob(data: &Blob) -> (r: Result<EntriesV3, VErr>)
+		ensures r is Ok ==> dir_dec(data@) == Some(r.unwrap().entries@), r is Err ==> dir_dec(data@) is None
+	{ unimplemented!() }
 }
 impl Blob {
 	// Blob::read_range: the bytes of the range, or Err if it is out of bounds
@@ -101,14 +107,17 @@ impl ByteRange {
 		ensures r.length == self.length, r.offset == (if self.offset + offset <= u64::MAX { (self.offset + offset) as u64 } else { u64::MAX })
 //@end
 }
+// `find_spec(s, id)`: the entry find_tile returns; verified against the PMTiles lookup rule (greatest entry id <= tile id, run lengths,
+// leaf pointers) in unit pmtiles_dir. `coord_id(c)`: the Hilbert tile id of c (Kani unit pmtiles_codec, complete per zoom).
+pub uninterp spec fn find_spec(s: Seq<EntryV3>, id: u64) -> Option<EntryV3>;
+pub uninterp spec fn coord_id(c: TileCoord3) -> u64;
 impl EntriesV3 {
-	// find_tile: verified against the PMTiles lookup rule in unit pmtiles_dir; here: some entry of the directory or None
 	#[verifier::external_body]
-	pub fn find_tile(&self, tile_id: u64) -> (r: Option<EntryV3>) { unimplemented!() }
+	pub fn find_tile(&self, tile_id: u64) -> (r: Option<EntryV3>) ensures r == find_spec(self.entries@, tile_id) { unimplemented!() }
 }
-// coord_to_tile_id (unit pmtiles_codec): Ok exactly for coordinates of the tile grid
+// coord_to_tile_id: Ok exactly for coordinates of the tile grid
 #[verifier::external_body]
-pub fn coord_get_tile_id(c: &TileCoord3) -> (r: Result<u64, VErr>) ensures r is Ok <==> c.valid() { unimplemented!() }
+pub fn coord_get_tile_id(c: &TileCoord3) -> (r: Result<u64, VErr>) ensures r is Ok <==> c.valid(), r is Ok ==> r.unwrap() == coord_id(*c) { unimplemented!() }
 #[verifier::external_body] pub struct AbsFile { }
 impl AbsFile {
 	pub uninterp spec fn bytes(&self) -> Seq<u8>;
@@ -122,15 +131,34 @@ impl AbsFile {
 #[verifier::external_body] pub struct AbsLeafGuard { }
 impl AbsLeafCache { #[verifier::external_body] pub fn lock(&self) -> (g: AbsLeafGuard) { unimplemented!() } }
 impl AbsLeafGuard {
+	// C20 (unit limited_cache) + rely/guarantee: the value is what the loader yields for this key — either it was just computed, or it was
+	// stored earlier under the same key by this same lookup code (the only writer of this cache), hence satisfies the loader's contract
 	#[verifier::external_body]
 	pub fn get_or_set<F: FnOnce() -> Result<std::sync::Arc<Blob>, VErr>>(&mut self, key: &ByteRange, callback: F) -> (r: Result<std::sync::Arc<Blob>, VErr>)
 		requires callback.requires(())
+		ensures r is Ok ==> callback.ensures((), r)
 	{ unimplemented!() }
 }
 #[verifier::external_body] pub struct HeaderV3Abs { }
 impl HeaderV3Abs { pub uninterp spec fn tile_data_offset(&self) -> u64; #[verifier::external_body] pub fn tile_data_offset_exec(&self) -> (r: u64) ensures r == self.tile_data_offset() { unimplemented!() } }
-pub struct PMTilesReader { pub data_reader: AbsFile, pub header: HeaderV3Abs, pub internal_compression: TileCompression, pub leaves_bytes: Blob, pub leaves_cache: AbsLeafCache, pub root_bytes_uncompressed: std::sync::Arc<Blob> }
+pub struct PMTilesReader { pub data_reader: AbsFile, pub header: HeaderV3Abs, pub internal_compression: TileCompression, pub leaves_bytes: Blob, pub leaves_cache: AbsLeafCache, pub tilejson: TileJSON, pub parameters: TilesReaderParameters, pub root_bytes_uncompressed: std::sync::Arc<Blob> }
+// the PMTiles v3 lookup, written from the specification ("search the root directory; an entry with run_length 0 points to a leaf
+// directory stored in the leaf section, compressed with the INTERNAL compression; at most three directory levels")
+pub enum PmRes { Tile(ByteRange), Missing, Bad }
 impl PMTilesReader {
+	pub open spec fn leaf_bytes(&self, range: ByteRange) -> Option<Seq<u8>> {
+		if range.offset + range.length <= self.leaves_bytes@.len() { decode(self.internal_compression, self.leaves_bytes@.subrange(range.offset as int, range.offset + range.length)) } else { None }
+	}
+	pub open spec fn pm_lookup(&self, id: u64, dir: Seq<u8>, fuel: nat) -> PmRes decreases fuel {
+		if fuel == 0 { PmRes::Bad } else { match dir_dec(dir) {
+			None => PmRes::Bad,
+			Some(es) => match find_spec(es, id) {
+				None => PmRes::Missing,
+				Some(e) => if e.range.length == 0 { PmRes::Missing } else if e.run_length > 0 { PmRes::Tile(e.range) } else {
+					match self.leaf_bytes(e.range) { None => PmRes::Bad, Some(l) => self.pm_lookup(id, l, (fuel - 1) as nat) } },
+			},
+		} }
+	}
 //@extract fn file="versatiles_container/src/container/pmtiles/reader.rs" scope="impl TilesReaderTrait for PMTilesReader" name="get_tile_data"
 //@rewrite "coord.get_tile_id()" => "coord_get_tile_id(coord)" R7
 //@rewrite "self.header.tile_data.offset" => "self.header.tile_data_offset_exec()" R6
@@ -138,8 +166,18 @@ impl PMTilesReader {
 //@spec
 		// any coordinate, any (decodable or not) directories: a tile, nothing, or an error — never a panic; at most 3 directory levels (C19, C16)
 		ensures r is Ok && r.unwrap() is Some ==> coord.valid(),
-//@loop 1
-			invariant coord.valid(),
+			// an answer is the answer of the specification's lookup: the bytes of the addressed range of the tile section, or no tile (C16, C01)
+			r is Ok ==> (match self.pm_lookup(coord_id(*coord), self.root_bytes_uncompressed@, 3) {
+				PmRes::Tile(rg) => r.unwrap() is Some && ({ let off = if rg.offset + self.header.tile_data_offset() <= u64::MAX { (rg.offset + self.header.tile_data_offset()) as u64 } else { u64::MAX };
+					off + rg.length <= self.data_reader.bytes().len() && r.unwrap().unwrap()@ == self.data_reader.bytes().subrange(off as int, off + rg.length) }),
+				PmRes::Missing => r.unwrap() is None,
+				PmRes::Bad => false,
+			}),
+//@loop 1 iter=it
+			invariant coord.valid(), tile_id == coord_id(*coord),
+				self.pm_lookup(tile_id, self.root_bytes_uncompressed@, 3) == self.pm_lookup(tile_id, dir_bytes@, (3 - it.index@) as nat),
+//@closure "||"
+|| -> (cr: Result<Arc<Blob>, VErr>) ensures cr is Ok ==> self.leaf_bytes(range) == Some(cr.unwrap()@)
 //@end
 }
 } // verus!
